@@ -184,7 +184,118 @@ class MergeQualifiers(Case):
         return {k: list(v) for k, v in r.items()}
 
 
-CASES = [ExtractNameId("extract_feature_name_id[all orderings of all subsets <= 3 keys, 2 spellings + look-alikes]",
+class MergeQualifiersMethod(Case):
+    """AbstractFeatureInterval._merge_qualifiers(other): key-wise set union of the interval's own qualifiers and the
+    parent's; the result owns its value sets (editing one - as every export_qualifiers does when it adds the child's
+    name / id - may change neither the interval's nor the parent's sets), and both operands are left unchanged.
+    Complete finite domain of small qualifier dictionaries, two siblings merged with the same parent dictionary in
+    sequence (the way GeneInterval.to_gff / FeatureIntervalCollection.to_gff export their children)."""
+    props = ("C18", "C11", "C10")
+    name = "AbstractFeatureInterval._merge_qualifiers[all small dictionaries, two siblings sharing the parent dictionary]"
+    func = "gene.interval.AbstractFeatureInterval._merge_qualifiers"
+    module = "gene.feature"
+    call = ("(lambda f1, f2, par: (lambda m1: (lambda _e, m2: ({k: sorted(v) for k, v in m1.items()}, "
+            "{k: sorted(v) for k, v in m2.items()}, {k: sorted(v) for k, v in par.items()}, "
+            "{k: sorted(v) for k, v in f1.qualifiers.items()}))"
+            "([m1[k].add('EDIT') for k in list(m1)], f2._merge_qualifiers(par)))(f1._merge_qualifiers(par)))"
+            "(FeatureInterval([1], [5], Strand.PLUS, qualifiers=dict(q1)), "
+            "FeatureInterval([1], [5], Strand.PLUS, qualifiers=dict(q2)), {k: set(v) for k, v in pq})")
+    ensures = {
+        "first-result-is-the-keywise-union": lambda i, r: r[0] == _union(i.q1, i.pq, extra="EDIT"),
+        "second-sibling-unaffected-by-edits-of-the-first-result": lambda i, r: r[1] == _union(i.q2, i.pq),
+        "parent-dictionary-unchanged": lambda i, r: r[2] == {k: sorted(set(v)) for k, v in i.pq},
+        "own-qualifiers-unchanged": lambda i, r: r[3] == {k: sorted(set(v)) for k, v in i.q1},
+    }
+
+    def inputs(self, S):
+        q1 = [(k, list(v)) for k, v in S.const("q1")]
+        q2 = [(k, list(v)) for k, v in S.const("q2")]
+        pq = [(k, list(v)) for k, v in S.const("pq")]
+        return NS(q1=q1, q2=q2, pq=pq, FeatureInterval=S.cls("gene.feature.FeatureInterval"), Strand=S.cls("location.strand.Strand"))
+
+    def ground(self):
+        ds = [[], [["k1", ["a"]]], [["k2", ["b", "a"]]], [["k1", ["c"]], ["k2", ["a"]]]]
+        for q1 in ds:
+            for q2 in ds[:3]:
+                for pq in ds:
+                    yield {"q1": q1, "q2": q2, "pq": pq}
+
+    def observe(self, r):
+        return [dict(x) for x in r]
+
+
+def _union(own, parent, extra=None):
+    out = {}
+    for k, v in list(own) + list(parent):
+        out.setdefault(k, set()).update(v)
+    if extra is not None:
+        for k in out:
+            out[k].add(extra)
+    return {k: sorted(v) for k, v in out.items()}
+
+
+class FilterAndSort(Case):
+    """io/gff3/parser.py:filter_and_sort_qualifiers (module not importable here: AST in the verifier, mechanically
+    extracted FunctionDef under CPython): the qualifiers that ARE BioCantor identifier terms or GFF3 reserved terms are
+    dropped, every other key is kept with its values sorted; None for an empty result.  Order-independent."""
+    props = ("C18", "C11")
+    name = "filter_and_sort_qualifiers[all orderings of small key sets: reserved terms, look-alikes, ordinary keys]"
+    func = "io.gff3.parser.filter_and_sort_qualifiers"
+    module = "gene.feature"
+    call = "fs(dict(q))"
+    ensures = {
+        "reserved-terms-dropped-others-kept-sorted": lambda i, r: (
+            (r is None) if not _kept(i.q) else (r is not None and {k: list(v) for k, v in r.items()} == _kept(i.q))),
+    }
+    # known finding: re.match anchors only at the START, so every key that merely BEGINS with a reserved term
+    # ("identity", "names", "parental", "producto") is silently dropped as well
+    known = {"reserved-terms-dropped-others-kept-sorted": dict(
+        id="F-C18-2", carve=lambda i: any(_prefix_only(k) for k, _ in i.q))}
+
+    def inputs(self, S):
+        q = [(k, list(v)) for k, v in S.const("q")]
+        import re
+        if S.mode == "native":
+            from inscripta.biocantor.io.gff3.constants import BIOCANTOR_QUALIFIERS_REGEX
+            fs = S.extracted_fn("io.gff3.parser.filter_and_sort_qualifiers",
+                                dict(BIOCANTOR_QUALIFIERS_REGEX=BIOCANTOR_QUALIFIERS_REGEX))
+        else:
+            fs = S.fn("io.gff3.parser.filter_and_sort_qualifiers")
+        return NS(q=q, fs=fs)
+
+    def ground(self):
+        keys = ["gene_id", "Name", "ID", "Parent", "product", "locus_tag", "note", "colour", "identity", "names",
+                "db_xref", "GENE_ID"]
+        for n in (0, 1, 2):
+            for combo in itertools.permutations(keys, n):
+                yield {"q": [[k, ["b", "a"] if j == 0 else ["z"]] for j, k in enumerate(combo)]}
+
+    def observe(self, r):
+        return None if r is None else {k: list(v) for k, v in r.items()}
+
+
+# the reserved vocabulary, written out from the documentation of the two enums (specification, not read from the code)
+RESERVED_TERMS = {
+    "gene_id", "gene_name", "gene_symbol", "gene_biotype", "gene_type", "transcript_id", "transcript_name",
+    "transcript_biotype", "transcript_type", "protein_id", "product", "feature_id", "feature_name", "feature_symbol",
+    "feature_collection_name", "feature_collection_id", "feature_collection_type", "feature_colletion_type",
+    "feature_type", "locus_tag", "id", "name", "parent", "ID", "Name", "Parent",
+}
+
+
+def _is_reserved(k):
+    return k in RESERVED_TERMS
+
+
+def _prefix_only(k):
+    return not _is_reserved(k) and any(k.startswith(t) for t in RESERVED_TERMS)
+
+
+def _kept(q):
+    return {k: sorted(v) for k, v in q if not _is_reserved(k)}
+
+
+CASES = [FilterAndSort(), MergeQualifiersMethod(), ExtractNameId("extract_feature_name_id[all orderings of all subsets <= 3 keys, 2 spellings + look-alikes]",
                        _all_orderings_small),
          ExtractNameId("extract_feature_name_id[all 7! orderings of the name keys; 7! of mixed name/id/look-alike]",
                        _all_orderings_name_keys),
